@@ -1,6 +1,7 @@
 """Per-property recipes: which design-level TLC configurations are run, how
 real executions are recorded, which events the property speaks about."""
-import json, os, re
+import json
+import shutil, os, re
 import vlib
 from vlib import Infra
 
@@ -947,6 +948,47 @@ def osproc_trace(binary, n, l, seed, d, slow_ms=0, env_mode=""):
     return [json.dumps(e) + "\n" for e in out], observed
 
 
+_jswasm = {}
+
+
+def jswasm_runner():
+    """(exec script, wasm harness) for a js/wasm build of library and harness run under Node, or None when Node or Go's
+    wasm exec script is not installed (then this pass is skipped and the evidence says so)"""
+    if "v" not in _jswasm:
+        _jswasm["v"] = None
+        node = shutil.which("node")
+        r = subprocess.run(["go", "env", "GOROOT"], capture_output=True, text=True, env=vlib.GOENV)
+        root = r.stdout.strip()
+        ex = next((p for p in (os.path.join(root, "lib", "wasm", "go_js_wasm_exec"), os.path.join(root, "misc", "wasm", "go_js_wasm_exec")) if os.path.exists(p)), None)
+        if node and ex:
+            _jswasm["v"] = (ex, vlib.build_harness(name="harness", goarch="wasm", goos="js"))
+    return _jswasm["v"]
+
+
+def jswasm_osproc_lines(n, l, seed, d):
+    """one fresh process of the js/wasm build (GOOS=js GOARCH=wasm under Node: no window object, crypto.getRandomValues
+    present) on the default source: build-constrained files and host probes must not change where fresh mnemonics come
+    from (seeded changes C07n, C11j live only there).  System calls are not observable here; the clauses that remain are
+    source identity, well-formed fresh outputs, and everything the scripted sources decide."""
+    jr = jswasm_runner()
+    if jr is None:
+        return []
+    tr = os.path.join(d, "tjs.ndjson")
+    if os.path.exists(tr):
+        os.remove(tr)
+    vlib.run_harness(jr[0], [jr[1], "osproc", "-n", str(n), "-lang", str(l), "-seed", str(seed), "-out", tr], timeout=300)
+    out = []
+    for x in vlib.read_trace(tr):
+        e = json.loads(x)
+        if e["op"] in ("OSCalibration", "OSMark"):
+            continue
+        if e["op"] == "NewMnemonic" and e.get("default_source"):
+            e["os_observed"] = False
+        e["build"] = "jswasm"
+        out.append(json.dumps(e, separators=(",", ":")) + "\n")
+    return out
+
+
 def record_c07(binary, tier, seed):
     combos = [(n, l) for l in range(10) for n in (12, 15, 18, 21, 24)]
     reps = 1 if tier == "quick" else 30
@@ -972,14 +1014,35 @@ def record_c07(binary, tier, seed):
     # output is still made of the bytes its own reads delivered, nobody else's
     lines += overlap_lines(binary, tier, seed)
     nproc += 1
+    # the js/wasm build under Node (another set of build-constrained files, another host)
+    njs = 0
+    for k in range(3 if tier == "quick" else 25):
+        n, l = combos[(seed * 7 + k * 11) % len(combos)]
+        ls = jswasm_osproc_lines(n, l, seed * 1000 + 500 + k, d)
+        lines += ls
+        njs += 1 if ls else 0
+    nproc += njs
+    if njs == 0:
+        vlib.log("note: node or go_js_wasm_exec not found; the js/wasm pass of C07 is skipped")
     if observed == 0:
         vlib.log("note: getrandom is not observable with this toolchain; C07 falls back to source identity + well-formed, fresh outputs")
     return lines, nproc, {"processes": nproc, "default_source_calls_explained_by_getrandom": observed,
-                          "getrandom_observable": observed > 0}
+                          "getrandom_observable": observed > 0, "jswasm_processes": njs}
 
 
 def replay_c07(path, binary):
     rp = json.load(open(path))
+    fk = rp.get("failing_event", 0)
+    fev = rp["unit"][fk - 1] if 0 < fk <= len(rp["unit"]) else {}
+    if fev.get("build") == "jswasm" or (not fev and any(e.get("build") == "jswasm" for e in rp["unit"])):
+        call = next((e for e in rp["unit"] if e.get("op") == "NewMnemonicCall" and e.get("n", {}).get("fits")), {"n": {"v": 12}, "lang": 2})
+        d = vlib.scratch("verif-os-")
+        lines = jswasm_osproc_lines(call["n"]["v"], call["lang"], 4244, d)
+        if not lines:
+            raise Infra("js/wasm replay: node or go_js_wasm_exec not available")
+        v = vlib.validate(lines, ["C07"], shards=1)
+        mine = [b for b in v.bad if b[1] == "C07"]
+        return (len(mine) == 0, "re-ran a fresh js/wasm process under node: %d events, %d failing" % (len(lines), len(mine)))
     cut = next((e for e in rp["unit"] if e.get("op") == "Cut" and "overlap_seed" in e), None)
     if cut is not None:
         for attempt in range(4):        # (what overlapping calls do depends on the schedule: up to four runs)
@@ -1157,6 +1220,7 @@ def record_c13(binary, tier, seed):
         programs.append((slotmap_for(a, b), walk(rng.randrange(100, 200), False)))
     d = vlib.scratch("verif-hist-")
     lines = []
+    cold_first = set()
     for i, (sm, labs) in enumerate(programs):
         body = [step_from_label(l, sm, rng) for l in labs]
         # opening: validation under the unsupported values while the process is cold; closing pass: English is used
@@ -1165,7 +1229,15 @@ def record_c13(binary, tier, seed):
         opening = [{"op": "chk", "cls": "valid", "lang": sm["U"], "var": 0}, {"op": "chk", "cls": "valid", "lang": sm["V"], "var": 0},
                    {"op": "ent", "cls": "e16", "lang": sm["U"], "var": 0}]
         english = [{"op": "chk", "cls": "valid", "lang": 2, "var": 0}, {"op": "chk", "cls": "unknown", "lang": 2, "var": 0}]
-        again = [dict(st) for st in (opening + body)[:25] if st["op"] in ("chk", "ent", "seed", "str")]
+        # ... but not always: in every third program, and in the first program for each language A, the first validation
+        # of the process is the program's own first use (language A, cold), and the unsupported values come after the two
+        # first uses (seeded change C13n: a one-entry memo whose zero value matches Language(0))
+        if i % 3 == 1 or sm["A"] not in cold_first:
+            cold_first.add(sm["A"])
+            head = body[:2] + opening + body[2:]
+        else:
+            head = opening + body
+        again = [dict(st) for st in head[:25] if st["op"] in ("chk", "ent", "seed", "str")]
         # generation from the same stream, delivered in the same pieces, before and after a generation of another
         # size from another stream: same arguments, same bytes drawn, same result
         la, lb = sm["A"], sm["B"]
@@ -1177,7 +1249,7 @@ def record_c13(binary, tier, seed):
                  dict(rep),
                  {"op": "new", "n": n1, "lang": la, "script": script_for("fail5", n1), "after": "EOF", "fill": 101},
                  dict(rep), {"op": "swap", "kind": "os"}]
-        steps = [{"op": "observe"}] + opening + body + english + again + regen + [{"op": "recheck"}]
+        steps = [{"op": "observe"}] + head + english + again + regen + [{"op": "recheck"}]
         prog, out = os.path.join(d, "prog.json"), os.path.join(d, "trace.ndjson")
         json.dump({"steps": steps}, open(prog, "w"))
         vlib.run_harness(binary, ["prog", "-arg", prog, "-seed", str(seed), "-out", out],
